@@ -43,6 +43,7 @@ SSHFP, TLSA, SMIMEA, CERT, DNSKEY, CDNSKEY, OPENPGPKEY = 44, 52, 53, 37, 48, 60,
 EUI48, EUI64, L32, L64, NID, HINFO, X25, DHCID, NSAP = 108, 109, 105, 106, 104, 13, 19, 49, 22
 NSEC3PARAM, URI, WKS, NAPTR = 51, 256, 11, 35
 KEY, DS, DLV, CDS, ZONEMD, CAA, CSYNC, NSEC3 = 25, 43, 32769, 59, 63, 257, 62, 50
+DNAME, NSEC, NSAP_PTR, BRID, HHIT = 39, 47, 23, 68, 67
 FIELD_TYPES_ANY = {
     SPF: "txt", NINFO: "txt", AVC: "txt", RESINFO: "txt", WALLET: "txt",
     AFSDB: [2, "U"], RT: [2, "U"], RP: ["U", "U"],
@@ -51,6 +52,7 @@ FIELD_TYPES_ANY = {
     HINFO: ["C8", "C8"], X25: ["C8"], NSEC3PARAM: [4, "C8"], URI: [4, "R1"],
     KEY: [4, "R"], DS: ["ds"], DLV: ["ds"], CDS: ["cds"], ZONEMD: ["zonemd"], CAA: ["caa"],
     CSYNC: [6, "bitmap"], NSEC3: [4, "C8", "C8", "bitmap"],
+    DNAME: ["X"], NSEC: ["X", "bitmap"], BRID: ["R"], HHIT: ["R"],      # "X": uncompressed name, case kept in the digest
 }
 
 
@@ -66,7 +68,7 @@ def bitmap_windows(b):
 def bitmap_bytes(windows):
     return b"".join(bytes([w, len(bm)]) + bytes(bm) for w, bm in windows)
 FIELD_TYPES_IN = {KX: [2, "U"], PX: [2, "U", "U"], DHCID: ["R"], NSAP: ["R"], WKS: [5, "R"],
-                  NAPTR: [4, "C8", "C8", "C8", "N"]}
+                  NAPTR: [4, "C8", "C8", "C8", "N"], NSAP_PTR: ["X"]}
 
 
 def field_spec(rdclass, rdtype):
@@ -214,7 +216,11 @@ def mk_rdata(rdclass, rdtype, rd):
             return cls(rdclass, rdtype, *struct.unpack("!IH", pb(0)), bitmap_windows(pb(1)))
         if rdtype == NSEC3:
             return cls(rdclass, rdtype, *struct.unpack("!BBH", pb(0)), pb(1)[1:], pb(2)[1:], bitmap_windows(pb(3)))
-        if rdtype in (OPENPGPKEY, DHCID, NSAP, EUI48, EUI64):
+        if rdtype in (DNAME, NSAP_PTR):
+            return cls(rdclass, rdtype, piece_name(rd, 0))
+        if rdtype == NSEC:
+            return cls(rdclass, rdtype, piece_name(rd, 0), bitmap_windows(pb(1)))
+        if rdtype in (OPENPGPKEY, DHCID, NSAP, EUI48, EUI64, BRID, HHIT):
             return cls(rdclass, rdtype, pb(0))
         if rdtype == L32:
             return cls(rdclass, rdtype, struct.unpack("!H", pb(0))[0], dns.ipv4.inet_ntoa(pb(1)))
@@ -362,8 +368,14 @@ def rdata_pieces(rd):
         if t == NSEC3:
             return [struct.pack("!BBH", rd.algorithm, rd.flags, rd.iterations), bytes([len(rd.salt)]) + rd.salt,
                     bytes([len(rd.next)]) + rd.next, bitmap_bytes(rd.windows)]
+        if t in (DNAME, NSAP_PTR):
+            return [[2, labels_of(rd.target)]]
+        if t == NSEC:
+            return [[2, labels_of(rd.next)], bitmap_bytes(rd.windows)]
         if t == OPENPGPKEY:
             return [bytes(rd.key)]
+        if t in (BRID, HHIT):
+            return [bytes(rd.value)]
         if t == DHCID:
             return [bytes(rd.data)]
         if t == NSAP:
@@ -567,8 +579,8 @@ def walk_name(wire, off, label_starts):
 NAME_FIELDS = {NS: ["n"], CNAME: ["n"], PTR: ["n"], MX: [2, "n"], SOA: ["n", "n", 20], SRV: [6, "n"],
                RRSIG: [18, "n", None], TSIG: ["n", None],
                AFSDB: [2, "n"], RT: [2, "n"], RP: ["n", "n"], KX: [2, "n"], PX: [2, "n", "n"],
-               NAPTR: [4, "c8", "c8", "c8", "n"]}
-IN_ONLY_NAME_TYPES = (SRV, KX, PX, NAPTR)
+               NAPTR: [4, "c8", "c8", "c8", "n"], DNAME: ["n"], NSAP_PTR: ["n"], NSEC: ["n", None]}
+IN_ONLY_NAME_TYPES = (SRV, KX, PX, NAPTR, NSAP_PTR)
 
 
 def walk(wire):
@@ -806,6 +818,8 @@ def gen_rdata(rng, pool, rdclass, rdtype):
                 out.append([1, nm()])
             elif f == "N":
                 out.append([0, nm()])
+            elif f == "X":
+                out.append([2, nm()])
             elif f == "R1":
                 out.append(bytes(rng.randrange(256) for _ in range(rng.choice([1, 2, 20, 70]))))
             elif f in ("ds", "cds"):
@@ -844,10 +858,11 @@ def rd_key(rd, origin=None):
     rel = False
     for p in rd:
         if isinstance(p, list):
-            ls = [lower(x) for x in p[1]]
+            low = (lambda x: bytes(x)) if p[0] == 2 else lower     # noqa: E731  (code 2: case kept in the digest)
+            ls = [low(x) for x in p[1]]
             if not ls or ls[-1] != b"":
                 if origin is not None:
-                    ls = ls + [lower(x) for x in origin]
+                    ls = ls + [low(x) for x in origin]
                 else:
                     rel = True
                     ls = ls + [b""]
